@@ -18,6 +18,7 @@ mod triepos;
 mod locksdemo;
 mod util;
 mod wal;
+mod walker;
 
 fn arg(args: &[String], name: &str) -> Option<String> {
     args.iter().position(|a| a == name).and_then(|i| args.get(i + 1).cloned())
@@ -71,6 +72,7 @@ fn main() {
         "delta-log" => delta::run_log(seed, cases, &mut sink),
         "overflow" => overflow::run(seed, cases, &mut sink),
         "leafupd" => leafupd::run(seed, cases, &mut sink),
+        "walker" => walker::run(seed, cases, &mut sink),
         "core-pp" => core_pp::run(seed, cases, &mut sink),
         "core-mp" => core_mp::run(seed, cases, &mut sink),
         "core-mp-corpus" => {
